@@ -24,6 +24,7 @@ def deep_round_factory(tol):
       if isinstance(j, float): _args[i] = round(j, tol) # don't round int
       elif isinstance(j, (str, unicode, type(BaseException()))): continue
       elif isinstance(j, dict): _args[i] = dict(zip(j.keys(), deep_round(*j.values())[0]))
+      elif isiterable(j) and iter(j) is j: continue # a one-shot iterator: looking inside would use it up
       elif isiterable(j): #XXX: fails on the above, so don't iterate them
         jtype = type(j)
         _args[i] = jtype(deep_round(*j)[0])
@@ -31,6 +32,7 @@ def deep_round_factory(tol):
       if isinstance(j, float): _kwds[i] = round(j, tol)
       elif isinstance(j, (str, unicode, type(BaseException()))): continue
       elif isinstance(j, dict): _kwds[i] = dict(zip(j.keys(), deep_round(*j.values())[0]))
+      elif isiterable(j) and iter(j) is j: continue # a one-shot iterator: looking inside would use it up
       elif isiterable(j): #XXX: fails on the above, so don't iterate them
         jtype = type(j)
         _kwds[i] = jtype(deep_round(*j)[0])
